@@ -15,6 +15,10 @@ EXTENDS Naturals, Integers, Sequences, FiniteSets
 CONSTANTS MaxLabel,   \* 63 on the real wire
           MaxName     \* 255 on the real wire
 
+\* a chain that does not cycle visits every offset at most once; 1024 hops is far beyond anything a real
+\* encoder produces (and bounds the work of this decoder on hostile 64 KiB inputs)
+HopLimit(b) == IF Len(b) < 1024 THEN Len(b) ELSE 1024
+
 NErr(why) == [ok |-> FALSE, why |-> why, labels |-> <<>>, next |-> -1]
 NOk(labels, next) == [ok |-> TRUE, why |-> "", labels |-> labels, next |-> next]
 
@@ -33,7 +37,7 @@ DecodeFrom(b, hi, pos, labels, size, hops, next) ==
       IF pos + 1 >= lim THEN NErr("truncated")
       ELSE LET target == (c - 192) * 256 + b[pos + 2] IN
         IF target >= Len(b) THEN NErr("pointer-outside")
-        ELSE IF hops >= Len(b) THEN NErr("cycle")
+        ELSE IF hops >= HopLimit(b) THEN NErr("cycle")
         ELSE DecodeFrom(b, hi, target, labels, size, hops + 1, IF next = -1 THEN pos + 2 ELSE next)
     ELSE IF c >= 64 THEN NErr("reserved-label-type")
     ELSE IF c > MaxLabel THEN NErr("label-too-long")
